@@ -42,9 +42,9 @@ build_mutations(void)
     for (int kind = 0; kind < 6; kind++)
         addm(kind, 0, 0, 0, 0, "no mutation");
     for (int kind = 0; kind < 6; kind++) {
-        int nsds = kind == 0 ? TC_NSDS : kind == 1 ? 4 : (kind == 3 || kind == 4 || kind == 5) ? 3 : 0;
+        int nsds = tc_nsds(kind);
         for (int k = 0; k < nsds; k++) {
-            int idx = kind == 1 ? TC_NSDS + k : k;
+            int idx = tc_sds_index(kind, k);
             for (int p = 0; p < 3; p++) {
                 if (TC_SDS[idx].layout != 6)
                     addm(kind, 1, k, p, 1, "%s element of SDS %s", P[p], TC_SDS[idx].name);
@@ -175,6 +175,58 @@ case_hdiff(long idx, void *ctx)
     if (idx % 17 == 0)
         mc_sample("hdiff: %s", g_case);
     tc_cleanup();
+}
+
+/* data sets hdiff compares strip by strip (>= 1 MiB) and data sets stored little-endian: one changed element */
+static void
+case_hdiff_special(long idx, void *ctx)
+{
+    (void)ctx;
+    static const struct {
+        int32 nt, d0, d1;
+        long  pos; /* -1: last element */
+    } SP[] = {{DFNT_UINT8, 1100, 1000, 5}, {DFNT_UINT8, 1100, 1000, -1}, {DFNT_UINT8, 1100, 1000, 550000}, {DFNT_INT16 | DFNT_LITEND, 10, 10, 3}, {DFNT_FLOAT32 | DFNT_LITEND, 6, 7, -1},
+              {DFNT_INT32 | DFNT_LITEND, 4, 5, 0}};
+    int cfg[2] = {3, (int)idx};
+    mc_set_config(cfg, 2, "family=hdiff-special");
+    long ne = (long)SP[idx].d0 * SP[idx].d1, pos = SP[idx].pos < 0 ? ne - 1 : SP[idx].pos;
+    snprintf(g_case, sizeof g_case, "SDS of type %d (%s) %dx%d, files differ in element %ld only", (int)SP[idx].nt, (SP[idx].nt & DFNT_LITEND) ? "little-endian storage" : ">= 1 MiB, compared strip by strip",
+             (int)SP[idx].d0, (int)SP[idx].d1, pos);
+    mc_set_case("%s", g_case);
+    tc_workdir("C19", 3000 + idx);
+    int32 base = SP[idx].nt & ~DFNT_LITEND;
+    void *v = malloc((size_t)ne * 8);
+    for (int which = 0; which < 2; which++) {
+        tc_values(base, ne, v, 3);
+        if (which)
+            tc_bump(base, v, pos);
+        int32 S = SDstart(tc_path(which ? "b.hdf" : "a.hdf"), DFACC_CREATE), d[2] = {SP[idx].d0, SP[idx].d1}, st[2] = {0, 0};
+        int32 s = SDcreate(S, "data", SP[idx].nt, 2, d);
+        if (s == FAIL || SDwritedata(s, st, NULL, d, v) == FAIL || SDendaccess(s) == FAIL || SDend(S) == FAIL) {
+            mc_harness_error("cannot write the special data set");
+            free(v);
+            return;
+        }
+    }
+    free(v);
+    char *a1[] = {"a.hdf", "b.hdf", NULL}, *a2[] = {"b.hdf", "a.hdf", NULL}, *a3[] = {"a.hdf", "a.hdf", NULL}, *o1 = NULL, *o2 = NULL, *o3 = NULL;
+    int   r1 = tc_run("hdiff", a1, &o1), r2 = tc_run("hdiff", a2, &o2), r3 = tc_run("hdiff", a3, &o3);
+    if (!tc_tool_crashed("hdiff", r1, o1, g_case) && !tc_tool_crashed("hdiff", r2, o2, g_case) && !tc_tool_crashed("hdiff", r3, o3, g_case)) {
+        const char *cls = (SP[idx].nt & DFNT_LITEND) ? "little-endian-sds" : "large-sds";
+        char        sig[120];
+        if (r3 != 0)
+            mc_violation("hdiff:not-reflexive", "%s: hdiff F F exits %d: %.300s", g_case, r3, o3);
+        if (r1 == 0 || r2 == 0) {
+            snprintf(sig, sizeof sig, "hdiff:difference-not-reported:%s", cls);
+            mc_violation(sig, "%s: hdiff exits %d / %d (arguments swapped): %.300s", g_case, r1, r2, o1);
+        }
+        mc_outcome(mc_hash_i(mc_hash_i(MC_H0, 900 + idx), r1 * 10 + r2));
+    }
+    free(o1);
+    free(o2);
+    free(o3);
+    tc_cleanup();
+    mc_count("hdiff_special_cases", 1);
 }
 
 /* ================================================================== (c) hdp */
@@ -563,6 +615,8 @@ C19_main(const char *tier, const char *replay)
         }
         else if (cfg[0] == 1)
             case_hdp(cfg[1], NULL);
+        else if (cfg[0] == 3)
+            case_hdiff_special(cfg[1], NULL);
         else
             case_import(cfg[1] + (long)NIMP * cfg[2], NULL);
         printf("replay C19: %s (files kept in %s)\n", g_case, tc_work);
@@ -574,6 +628,9 @@ C19_main(const char *tier, const char *replay)
             NMC, NIMP, NIDIMS);
     mc_round_begin("hdiff");
     mc_foreach(NMC, case_hdiff, NULL, 1, 300);
+    mc_round_end();
+    mc_round_begin("hdiff: large and little-endian data sets");
+    mc_foreach(6, case_hdiff_special, NULL, 1, 300);
     mc_round_end();
     mc_round_begin("hdp");
     mc_foreach(6, case_hdp, NULL, 1, 300);
